@@ -209,6 +209,7 @@ func init() {
 				c18Retarget(ctx, dir)
 				c18PathShapes(ctx, dir)
 				c18ConfiguredExec(ctx, dir)
+				c18BusyThenChanged(ctx, dir)
 				c18Config(ctx, dir)
 			}
 		}
@@ -612,6 +613,66 @@ func c18ConfiguredExec(ctx *Ctx, dir string) {
 			default:
 				ctx.Nontrivial(fmt.Sprintf("configured-exec:%s:%v", form, configuredIsPermitted))
 			}
+		}
+	}
+}
+
+// c18BusyThenChanged: the executable passes the test but is being written at that moment (the kernel refuses to run it,
+// "text file busy"); before the writer closes it, ownership and mode change. Whatever fan2go does about the busy file,
+// nothing may be run that was not tested at the time it is run.
+func c18BusyThenChanged(ctx *Ctx, dir string) {
+	marker := filepath.Join(dir, "marker-busy")
+	for i, via := range []string{"SafeCmdExecution", "CmdSensor", "CmdFan.GetPwm"} {
+		p := filepath.Join(dir, fmt.Sprintf("busy-%d.sh", i))
+		_ = os.Remove(p)
+		_ = os.WriteFile(p, []byte("#!/bin/sh\necho ran >> "+marker+"\necho 4242\n"), 0755)
+		_ = os.Chown(p, 0, 0)
+		_ = os.Chmod(p, 0o755)
+		w, err := os.OpenFile(p, os.O_WRONLY, 0)
+		if err != nil {
+			ctx.Inconclusive("busy executable: " + err.Error())
+			return
+		}
+		before := markerCount(marker)
+		type res struct {
+			out  string
+			err  error
+			pmsg string
+		}
+		done := make(chan res, 1)
+		go func() {
+			o, e, pm := c18Invoke(via, p)
+			done <- res{o, e, pm}
+		}()
+		// the first attempt is over after a few milliseconds; then the file stops being root's
+		var r res
+		returned := false
+		select {
+		case r = <-done:
+			returned = true
+		case <-time.After(150 * time.Millisecond):
+		}
+		_ = os.Chown(p, 1000, 1000)
+		_ = os.Chmod(p, 0o777)
+		_ = w.Close()
+		if !returned {
+			select {
+			case r = <-done:
+			case <-time.After(20 * time.Second):
+				ctx.Violation("busy-executable:call-did-not-return:"+via, "no result 20 s after the writer closed the file", nil)
+				return
+			}
+		}
+		ctx.Eval(1)
+		ran := markerCount(marker) > before
+		desc := fmt.Sprintf("via %s: root-owned 0755 script held open for writing when called, chown 1000 + chmod 0777 150 ms later, then closed: ran=%v out=%q err=%v", via, ran, r.out, r.err)
+		switch {
+		case r.pmsg != "":
+			ctx.Violation("busy-executable:panic:"+via, desc+" "+firstLine(r.pmsg), desc)
+		case ran:
+			ctx.Violation("busy-executable:executed-although-not-permitted-any-more:"+via, desc, desc)
+		default:
+			ctx.Nontrivial("busy-then-changed:" + via)
 		}
 	}
 }
